@@ -83,13 +83,17 @@ Definition subtle (an : anal) (k : tkey) : bool := existsb (tkey_eqb k) (a_compl
 (* parameters of one NameConverter run: the analysis and the two symbols found by _search_names
    (None = the method does not mention it; recode passes a falsy value then).  adapt_function hands recode only the
    FIRST name found that denotes the function (rec_syms[0]); [p_alias] lists the other names of the source that
-   denote it too (recurse under a second alias, the function's own name): the rewriter leaves them alone (KF-29).
+   denote it too, each with a flag: false = another name for ovld.recurse (registered, it stays bound to ovld's Unusable
+   placeholder), true = the function's own global name (stays bound to that global function): the rewriter leaves them alone (KF-29).
    [p_id] is the id of the function the method is being adapted FOR (ovld.id: register_signature adapts every method,
    inherited ones included, for the function being built); [p_code] the number drawn from recode's _current counter. *)
-Record rwp := { p_anal : anal; p_rs : option nat; p_cs : option nat; p_alias : list nat; p_id : nat; p_code : nat }.
+Record rwp := { p_anal : anal; p_rs : option nat; p_cs : option nat; p_alias : list (nat * bool); p_id : nat; p_code : nat }.
 
 Definition is_sym (o : option nat) (i : nat) : bool := match o with Some j => Nat.eqb i j | None => false end.
-Definition is_alias (p : rwp) (x : name) : bool := match x with NUser i => existsb (Nat.eqb i) (p_alias p) | _ => false end.
+Definition is_alias (p : rwp) (x : name) : bool :=
+  match x with NUser i => existsb (fun a => Nat.eqb i (fst a)) (p_alias p) | _ => false end.
+Definition alias_own (p : rwp) (i : nat) : bool :=
+  match find (fun a => Nat.eqb i (fst a)) (p_alias p) with Some a => snd a | None => false end.
 
 (* visit_Call's test: Some cn when func is the Name recurse_sym / call_next_sym *)
 Definition site (p : rwp) (f : expr) : option bool :=
@@ -457,7 +461,8 @@ Section Sem.
     | NSelf => if a_method an then Some (inj mself) else None
     | NUser i => if is_sym (p_cs p) i then Some (VPrim PCallNext)
                  else if is_sym (p_rs p) i then Some (VPrim PRecurse)
-                 else if is_alias p x then Some (VPrim (if reg then PUnusable else PRecurse))
+                 else if is_alias p x
+                 then Some (VPrim (if reg then (if alias_own p i then POvld (p_id p) else PUnusable) else PRecurse))
                  else option_map inj (ugl i)
     | NTmp _ _ => None
     end.
